@@ -472,18 +472,35 @@ class DataDevice(Device):
                 error_msg='Out of data',
             )
 
+        def to_float(s):
+            # python's float() also accepts forms like '1_0', 'nan'
+            # and 'inf' which are not numbers in BASIC.
+            if not re.fullmatch(
+                    r'[+-]?([0-9]+[.]?[0-9]*|[.][0-9]+)([eE][+-]?[0-9]+)?',
+                    s):
+                raise ValueError
+            value = float(s)
+            if not math.isfinite(value):
+                raise ValueError
+            return value
+
+        def to_int(s):
+            # an item like 1.5 or 1E3 is converted the way an
+            # assignment would (rounding to nearest)
+            return round(to_float(s))
+
         try:
             if data_type == 1:
-                value = 0 if s == Empty.value else int(s)
+                value = 0 if s == Empty.value else to_int(s)
                 self.cpu.push(CellType.INTEGER, value)
             elif data_type == 2:
-                value = 0 if s == Empty.value else int(s)
+                value = 0 if s == Empty.value else to_int(s)
                 self.cpu.push(CellType.LONG, value)
             elif data_type == 3:
-                value = 0.0 if s == Empty.value else float(s)
+                value = 0.0 if s == Empty.value else to_float(s)
                 self.cpu.push(CellType.SINGLE, value)
             elif data_type == 4:
-                value = 0.0 if s == Empty.value else float(s)
+                value = 0.0 if s == Empty.value else to_float(s)
                 self.cpu.push(CellType.DOUBLE, value)
             elif data_type == 5:
                 value = '' if s == Empty.value else s
